@@ -7178,6 +7178,11 @@ def main(): # pragma: no cover
         print("Unable to read input file:", str(e), file=sys.stderr)
         exit(2)
 
+    draws_graphs = any(ProgramData.dump(x) for x in (DebugDumpable.AST, DebugDumpable.DFA)) or (ProgramData.dump(DebugDumpable.DTREE) and ProgramData.do(ProgramFlag.DEBUG_DTREE_AS_GRAPH))
+    if draws_graphs and not debug_enabled:
+        print("The requested dumps need the graphviz package (install nmfu[debug])", file=sys.stderr)
+        exit(1)
+
     ProgramData.load_source(contents)
     try:
         parse_tree = parser.parse(contents, start="start")
@@ -7185,7 +7190,12 @@ def main(): # pragma: no cover
         print("Syntax error:", str(e), file=sys.stderr)
         exit(3)
 
-    if ProgramData.dump(DebugDumpable.PARSE): lark.tree.pydot__tree_to_png(parse_tree, ProgramData.dump_prefix + ".parse.png")
+    if ProgramData.dump(DebugDumpable.PARSE):
+        try:
+            lark.tree.pydot__tree_to_png(parse_tree, ProgramData.dump_prefix + ".parse.png")
+        except ImportError as e:
+            print("Dumping the parse tree needs the pydot package:", str(e), file=sys.stderr)
+            exit(1)
 
     pctx = ParseCtx(parse_tree)
 
